@@ -47,4 +47,5 @@ func checkC17(c *Ctx) {
 	c17R6(c)
 	c17R7(c)
 	c17R8(c)
+	c17R9(c)
 }
